@@ -107,7 +107,11 @@ def run(ctx, env):
     ctx.anchor("R12.1", "dispatcher", disp)
     n_sites = 0
     false_blocks_all = {}
-    for path, (body, sites) in sorted(disp.items()):
+    false_spans_all = {}
+    for path, (body0, sites0) in sorted(disp.items()):
+        # private helpers of the dispatcher (version splitting, the allowed-versions test, ..) inlined at CFG level
+        body = role_body(prog, path)
+        sites = [(blk, c) for (blk, t, c) in body.calls() if c is not None and c.npath in set(VERSION_PARSERS.values())]
         gates = [g for g in guards_by_call(an, body, CONTAINS)
                  if g[1][3] and is_allowed_versions(g[1][3][0])]
         if len(gates) != 1:
@@ -138,9 +142,13 @@ def run(ctx, env):
             ctx.ob("R12.1", path, "dominated:UnknownVersion", body.edge_dominates((sw, tt), b),
                    "UnknownVersion built at %s must be under the gate" % body.line(b), site=body.line(b))
         # false edge: only-false blocks contain no calls, build Err(UnallowedVersion(version))
-        fblocks = blocks_only_via(body, (sw, ff))
+        # everything executable after the gate's false edge (path-sensitive: a `?` on the helper's Err result only
+        # continues along its Break edge); error-propagation plumbing is not a "call"
+        fblocks = body.reachable_cp(ff)
         false_blocks_all[path] = fblocks
-        calls_in_false = [(b, c) for (b, t, c) in body.calls() if b in fblocks]
+        false_spans_all[path] = set(s2["span"].get("s") for (b2, i2, s2) in block_aggs(body, fblocks))
+        PLUMBING = ("std::ops::Try::branch", "std::ops::FromResidual::from_residual", "std::convert::From::from", "std::convert::Into::into")
+        calls_in_false = [(b, c) for (b, t, c) in body.calls() if b in fblocks and not (c is not None and c.nsyn in PLUMBING)]
         ctx.ob("R12.1", path, "false-edge-calls-nothing", not calls_in_false,
                "calls on the disallowed-version path: %s" % [c.id if c else "?" for _, c in calls_in_false],
                site=body.line(ff))
@@ -156,7 +164,7 @@ def run(ctx, env):
                 why = "UnallowedVersion carries %s, not the parsed version" % canon(pe)
         ctx.ob("R12.1", path, "false-edge-returns-UnallowedVersion(version)", okua, why, site=body.line(ff))
         # the false edge must end in return without rejoining parser calls
-        rej = [blk for blk, c in sites if blk in body.reachable(ff)]
+        rej = [blk for blk, c in sites if blk in fblocks]
         ctx.ob("R12.1", path, "false-edge-reaches-no-parser", not rej,
                "parser call blocks reachable after the false edge: %s" % rej, site=body.line(ff))
         # R12.2 dispatch table
@@ -191,7 +199,7 @@ def run(ctx, env):
         for (blk, i, s) in block_aggs(b):
             if s["rv"]["adt"].endswith("NetflowParseError") and s["rv"]["variant"] == "UnallowedVersion":
                 n_ua += 1
-                ok = b.path in false_blocks_all and blk in false_blocks_all[b.path]
+                ok = any(s["span"].get("s") in sp for sp in false_spans_all.values())
                 ctx.ob("R12.3", b.path, "UnallowedVersion-origin", ok,
                        "UnallowedVersion built at %s %s" % (site(s["span"]), "on the gate's false edge" if ok else "outside the gate's false edge"),
                        site=site(s["span"]))
